@@ -2,7 +2,7 @@
 described by `spec` (so all expression objects of one case live in one evaluation scope) and returns it.
 
 spec ::= ("lit", n) | ("cont", [spec…]) | ("call", task, tag, prov, [spec…], [(kwname, spec)…]) | ("op", name, [spec…])
-       | ("cond", c, a, b) | ("catch", e) | ("tags", v)
+       | ("cond", c, a, b) | ("catch", e) | ("catch", e, "rb")  (recover task that raises) | ("tags", v)
 Every value is an int or a (nested) list of ints; `value_of` below is the reference evaluation the harness uses
 to know which `cond` branch is taken."""
 import redun
@@ -43,6 +43,12 @@ def boom(tag, *args):
 @task()
 def rec(err):
     return 0
+
+
+@task()
+def rec_boom(err):
+    """a recover task that itself fails (handled by an enclosing catch)"""
+    raise ValueError("b%d" % (3000 + int(str(err)[1:])))
 
 
 @task()
@@ -103,7 +109,7 @@ def build(spec):
     if k == "cond":
         return cond(build(spec[1]), build(spec[2]), build(spec[3]))
     if k == "catch":
-        return catch(build(spec[1]), ValueError, rec)
+        return catch(build(spec[1]), ValueError, rec_boom if len(spec) > 2 and spec[2] == "rb" else rec)
     if k == "tags":
         return apply_tags(build(spec[1]), tags=[("k21", 1)])
     raise AssertionError(k)
@@ -152,7 +158,9 @@ def value_of(spec):
     if k == "catch":
         try:
             return value_of(spec[1])
-        except Boom:
+        except Boom as b:
+            if len(spec) > 2 and spec[2] == "rb":
+                raise Boom(3000 + b.args[0])       # the recover task raises in turn
             return 0
     if k == "tags":
         return value_of(spec[1])
